@@ -218,6 +218,19 @@ func init() {
 			}
 			return t
 		},
+		"vWants": func(in *Interp, fn *ssa.Function, a []Value) Value {
+			// is a family of assertions (by id prefix) part of the property being checked?
+			want := concreteStr(a[0])
+			if len(in.cfg.AssertPrefix) == 0 {
+				return in.ts.True
+			}
+			for _, p := range in.cfg.AssertPrefix {
+				if strings.HasPrefix(want, p) || strings.HasPrefix(p, want) {
+					return in.ts.True
+				}
+			}
+			return in.ts.False
+		},
 		"vSymbolic": func(in *Interp, fn *ssa.Function, a []Value) Value { return in.ts.True },
 	}
 
